@@ -39,8 +39,11 @@ InSeq(x, q) == \E i \in DOMAIN q : q[i] = x
 Project(fs, fields, excl) ==
    IF fields = <<>> THEN SelectSeq(fs, LAMBDA f : ~InSeq(f, excl))
    ELSE SelectSeq(fields, LAMBDA f : InSeq(f, fs) /\ ~InSeq(f, excl))                      \* -F order wins, unknown names dropped
-OutRec(r, cfg, fs, tsd) == [id |-> r.id, d |-> r.d, fields |-> fs, src |-> IF cfg.override THEN "OVR" ELSE "orig",
-                            cls |-> IF cfg.override THEN "CLS" ELSE "none", tsd |-> tsd]
+\* cfg.override: "no" | "set" (--record-source OVR --record-classification CLS) | "empty" (both given as the empty
+\* string: an override that BLANKS the metadata is still an override)
+OutRec(r, cfg, fs, tsd) == [id |-> r.id, d |-> r.d, fields |-> fs,
+                            src |-> CASE cfg.override = "set" -> "OVR" [] cfg.override = "empty" -> "" [] OTHER -> "orig",
+                            cls |-> CASE cfg.override = "set" -> "CLS" [] cfg.override = "empty" -> "" [] OTHER -> "none", tsd |-> tsd]
 \* --multi-timestamp: one record per datetime field left after projection (in field order), annotated with
 \* ts / ts_description in front; a record without datetime fields passes unchanged
 Expand(r, cfg) ==
